@@ -40,11 +40,394 @@ S_ = lambda j: ("ssym", j)
 
 
 # ---------------------------------------------------------------------------------------------
+# complex values: evaluators (floats, principal branches) and (re, im) serialisation to Coq over R
+# ---------------------------------------------------------------------------------------------
+import cmath  # noqa: E402  pylint: disable=wrong-import-position
+
+
+def cev_recipe(r, env):
+    t = r[0]
+    g = lambda x: cev_recipe(x, env)
+    if t == "vsym":
+        return tuple(complex(x) for x in env.vecs[r[1]])
+    if t == "vzero":
+        return (0j, 0j, 0j)
+    if t == "vadd":
+        return tuple(x + y for x, y in zip(g(r[1]), g(r[2])))
+    if t == "vscale":
+        k = g(r[1])
+        return tuple(k * x for x in g(r[2]))
+    if t == "cross":
+        return vx.v_cross(g(r[1]), g(r[2]))
+    if t == "int":
+        return complex(r[1])
+    if t == "rat":
+        return complex(r[1]) / r[2]
+    if t == "ssym":
+        return complex(env.scals[r[1]])
+    if t == "sadd":
+        return g(r[1]) + g(r[2])
+    if t == "smul":
+        return g(r[1]) * g(r[2])
+    if t == "sdiv":
+        return g(r[1]) / g(r[2])
+    if t == "dot":
+        return vx.v_dot(g(r[1]), g(r[2]))
+    if t == "ssqrt":
+        return cmath.sqrt(g(r[1]))
+    if t == "slog":
+        return cmath.log(g(r[1]))
+    if t == "imag":
+        return 1j
+    if t == "cexp":
+        return cmath.exp(1j * complex(env.scals[r[1]]))
+    if t == "cunit8":
+        return (1 + 1j) / cmath.sqrt(2)
+    if t == "rsqrt2":
+        return 1 / cmath.sqrt(2)
+    raise vx.Unsupported(f"complex evaluation of {t}")
+
+
+def cev_sympy(e, c, env, want):
+    from symplyphysics.core.experimental import vectors as VV  # pylint: disable=import-outside-toplevel
+    e = sympy.sympify(e)
+    g = lambda x, w: cev_sympy(x, c, env, w)
+    if want == "v":
+        if e == 0:
+            return (0j, 0j, 0j)
+        if isinstance(e, VV.VectorSymbol):
+            return tuple(complex(x) for x in env.vecs[int(c.vec_name[id(e)][1:])])
+        if isinstance(e, VV.VectorCross):
+            return vx.v_cross(g(e.args[0], "v"), g(e.args[1], "v"))
+        if isinstance(e, sympy.Add):
+            out = (0j, 0j, 0j)
+            for a in e.args:
+                out = tuple(x + y for x, y in zip(out, g(a, "v")))
+            return out
+        if isinstance(e, sympy.Mul):
+            vs = [a for a in e.args if c.kind(a) == "v"]
+            if len(vs) != 1:
+                raise vx.Unsupported(f"product with {len(vs)} vector factors: {e}")
+            k = 1 + 0j
+            for a in e.args:
+                if c.kind(a) != "v":
+                    k *= g(a, "s")
+            return tuple(k * x for x in g(vs[0], "v"))
+        raise vx.Unsupported(f"vector node {type(e).__name__}")
+    if isinstance(e, (sympy.Integer, sympy.Rational)):
+        return complex(sympy.Rational(e).p) / sympy.Rational(e).q
+    if e == sympy.I:
+        return 1j
+    if isinstance(e, sympy.Symbol):
+        return complex(env.scals[int(c.scal_name[e][1:])])
+    if isinstance(e, sympy.Add):
+        return sum((g(a, "s") for a in e.args), 0j)
+    if isinstance(e, sympy.Mul):
+        out = 1 + 0j
+        for a in e.args:
+            out *= g(a, "s")
+        return out
+    if isinstance(e, sympy.Pow):
+        b, x = g(e.args[0], "s"), g(e.args[1], "s")
+        if e.args[1] == sympy.Rational(1, 2):
+            return cmath.sqrt(b)
+        if e.args[1] == sympy.Rational(-1, 2):
+            return 1 / cmath.sqrt(b)
+        return b**x if x.imag or x.real != int(x.real) else b**int(x.real)
+    if isinstance(e, sympy.exp):
+        return cmath.exp(g(e.args[0], "s"))
+    if isinstance(e, sympy.log):
+        return cmath.log(g(e.args[0], "s"))
+    if isinstance(e, VV.VectorDot):
+        return vx.v_dot(g(e.args[0], "v"), g(e.args[1], "v"))
+    if isinstance(e, VV.VectorNorm):
+        w = g(e.args[0], "v")
+        return cmath.sqrt(sum(x * x for x in w))
+    if isinstance(e, sympy.Abs):
+        return complex(abs(g(e.args[0], "s")))
+    raise vx.Unsupported(f"scalar node {type(e).__name__}: {e}")
+
+
+def cclose(a, b):
+    if isinstance(a, tuple):
+        return all(cclose(x, y) for x, y in zip(a, b))
+    return abs(complex(a) - complex(b)) <= 1e-8 * max(1.0, abs(complex(a)), abs(complex(b)))
+
+
+def cshow(v):
+    if isinstance(v, tuple):
+        return [cshow(x) for x in v]
+    v = complex(v)
+    return f"{v.real:.6g}" if abs(v.imag) < 1e-12 else f"{v.real:.6g}{v.imag:+.6g}i"
+
+
+def cmul(a, b):
+    (ar, ai), (br, bi) = a, b
+    if ai == "0" and bi == "0":
+        return (f"({ar} * {br})", "0")
+    if ai == "0":
+        return (f"({ar} * {br})", f"({ar} * {bi})")
+    if bi == "0":
+        return (f"({ar} * {br})", f"({ai} * {br})")
+    return (f"({ar} * {br} - {ai} * {bi})", f"({ar} * {bi} + {ai} * {br})")
+
+
+def cadd(a, b):
+    return (a[0] if b[0] == "0" else b[0] if a[0] == "0" else f"({a[0]} + {b[0]})",
+            a[1] if b[1] == "0" else b[1] if a[1] == "0" else f"({a[1]} + {b[1]})")
+
+
+def cinv(a):
+    ar, ai = a
+    if ai == "0":
+        return (f"(/ {ar})", "0")
+    n2 = f"({ar} * {ar} + {ai} * {ai})"
+    return (f"({ar} / {n2})", f"(- ({ai}) / {n2})")
+
+
+def cvscale(k, v):
+    (a, b), (vr, vi) = k, v
+    re = f"(vscale {a} {vr})" if b == "0" or vi == "vzero" else f"(vadd (vscale {a} {vr}) (vscale (- ({b})) {vi}))"
+    if b == "0":
+        im = "vzero" if vi == "vzero" else f"(vscale {a} {vi})"
+    elif vi == "vzero":
+        im = f"(vscale {b} {vr})"
+    else:
+        im = f"(vadd (vscale {a} {vi}) (vscale {b} {vr}))"
+    return (re, im)
+
+
+def cvadd(a, b):
+    return (f"(vadd {a[0]} {b[0]})", a[1] if b[1] == "vzero" else b[1] if a[1] == "vzero" else f"(vadd {a[1]} {b[1]})")
+
+
+def cpair_recipe(r):
+    t = r[0]
+    g = cpair_recipe
+    if t == "vsym":
+        return (f"v{r[1]}", "vzero")
+    if t == "vzero":
+        return ("vzero", "vzero")
+    if t == "vadd":
+        return cvadd(g(r[1]), g(r[2]))
+    if t == "vscale":
+        return cvscale(g(r[1]), g(r[2]))
+    if t == "int":
+        return (vx.zlit(r[1]), "0")
+    if t == "ssym":
+        return (f"s{r[1]}", "0")
+    if t == "sadd":
+        return cadd(g(r[1]), g(r[2]))
+    if t == "smul":
+        return cmul(g(r[1]), g(r[2]))
+    if t == "imag":
+        return ("0", "1")
+    if t == "cexp":
+        return (f"(cos s{r[1]})", f"(sin s{r[1]})")
+    if t == "cunit8":
+        return ("(/ sqrt 2)", "(/ sqrt 2)")
+    if t == "rsqrt2":
+        return ("(/ sqrt 2)", "0")
+    raise vx.Unsupported(f"complex serialisation of recipe tag {t}")
+
+
+def cpair_sympy(e, c, want):
+    from symplyphysics.core.experimental import vectors as VV  # pylint: disable=import-outside-toplevel
+    e = sympy.sympify(e)
+    g = lambda x, w: cpair_sympy(x, c, w)
+    if want == "v":
+        if e == 0:
+            return ("vzero", "vzero")
+        if isinstance(e, VV.VectorSymbol):
+            return (c.vec_name[id(e)], "vzero")
+        if isinstance(e, sympy.Add):
+            out = g(e.args[0], "v")
+            for a in e.args[1:]:
+                out = cvadd(out, g(a, "v"))
+            return out
+        if isinstance(e, sympy.Mul):
+            vs = [a for a in e.args if c.kind(a) == "v"]
+            if len(vs) != 1:
+                raise vx.Unsupported(f"product with {len(vs)} vector factors: {e}")
+            k = ("1", "0")
+            for a in e.args:
+                if c.kind(a) != "v":
+                    k = cmul(k, g(a, "s"))
+            return cvscale(k, g(vs[0], "v"))
+        raise vx.Unsupported(f"vector node {type(e).__name__} in a complex combination")
+    if isinstance(e, sympy.Integer):
+        return (vx.zlit(int(e)), "0")
+    if isinstance(e, sympy.Rational):
+        return (f"({vx.zlit(int(e.p))} / {int(e.q)})", "0")
+    if e == sympy.I:
+        return ("0", "1")
+    if isinstance(e, sympy.Symbol):
+        return (c.scal_name[e], "0")
+    if isinstance(e, sympy.Add):
+        out = g(e.args[0], "s")
+        for a in e.args[1:]:
+            out = cadd(out, g(a, "s"))
+        return out
+    if isinstance(e, sympy.Mul):
+        out = g(e.args[0], "s")
+        for a in e.args[1:]:
+            out = cmul(out, g(a, "s"))
+        return out
+    if isinstance(e, sympy.Pow):
+        b, x = e.args
+        if b == 2 and x == sympy.Rational(1, 2):
+            return ("sqrt 2", "0")
+        if b == 2 and x == sympy.Rational(-1, 2):
+            return ("(/ sqrt 2)", "0")
+        if isinstance(x, sympy.Integer) and 1 <= abs(int(x)) <= 4:
+            base = g(b, "s")
+            out = base
+            for _ in range(abs(int(x)) - 1):
+                out = cmul(out, base)
+            return out if int(x) > 0 else cinv(out)
+        raise vx.Unsupported(f"power {e} in a complex combination")
+    if isinstance(e, sympy.exp):
+        theta = sympy.expand(e.args[0] / sympy.I)
+        if theta.has(sympy.I):
+            raise vx.Unsupported(f"exponential {e}")
+        if theta.could_extract_minus_sign():
+            th = vx.coq_of_sympy(-theta, vx._quiet(c), "s")
+            return (f"(cos {th})", f"(- sin {th})")
+        th = vx.coq_of_sympy(theta, vx._quiet(c), "s")
+        return (f"(cos {th})", f"(sin {th})")
+    raise vx.Unsupported(f"scalar node {type(e).__name__}: {e} in a complex combination")
+
+
+C_PREAMBLE_EXTRA = """
+Ltac c_nz :=
+  first [ assumption | lra
+        | let Hz := fresh "Hz" in intro Hz; match goal with H : _ <> 0 |- _ => apply H; rewrite ?Hz; ring end ].
+Ltac c_side := try (repeat split; c_nz).
+Ltac unpow :=
+  repeat match goal with
+  | |- context [?x ^ 2] => replace (x ^ 2) with (x * x) by ring
+  | |- context [?x ^ 3] => replace (x ^ 3) with (x * x * x) by ring
+  | |- context [?x ^ 4] => replace (x ^ 4) with (x * x * x * x) by ring
+  end.
+Ltac c_finish := first [ ring | solve [nsatz] | (field_simplify_eq; c_side; unpow; first [ ring | solve [nsatz] ]) ].
+"""
+
+
+def solve_vector_complex_cases(ctx):
+    """coefficients of modulus one that are not real (I, -I, exp(I*phi), (1+I)/sqrt(2)) and other complex ones: the identity
+    k * (lhs - rhs) = expr is proved componentwise over R for the real and the imaginary part (vectors are real)"""
+    from symplyphysics.core.experimental.solvers import solve_for_vector  # pylint: disable=import-outside-toplevel
+    rng = ctx.rng
+    I_ = ("imag",)
+    R2 = ("rsqrt2",)
+    # (coefficient as written, the coefficients of the terms expand() makes of it)
+    kinds = [(I_, [I_]), (("smul", ("int", -1), I_), [("smul", ("int", -1), I_)]), (("cexp", 2), [("cexp", 2)]),
+        (("cunit8",), [R2, ("smul", R2, I_)]), (("smul", ("int", 2), I_), [("smul", ("int", 2), I_)]),
+        (("smul", S_(0), I_), [("smul", S_(0), I_)]), (("sadd", ("int", 1), I_), [("int", 1), I_]),
+        (("smul", ("int", -1), ("cexp", 2)), [("smul", ("int", -1), ("cexp", 2))])]
+    lemmas, info = [], {}
+    n = 0
+    cap = Capped(ctx, 8)
+    for rep_i in range(ctx.pick(2, 8)):
+        for K, K_addends in kinds:
+            for reduce in (True, False):
+                n += 1
+                nv, ns = 3, 3
+                nterms = rng.choice([2, 3, 3])
+                unknown = rng.randrange(nv)
+                others = [i for i in range(nv) if i != unknown]
+                rng.shuffle(others)
+                terms = [(K, V(unknown))]
+                for i in range(nterms - 1):
+                    coef = rng.choice([S_(0), S_(1), ("int", rng.choice([-2, 2, 3])), ("sadd", S_(0), S_(1)), ("smul", ("int", -1), S_(1)),
+                        I_ if rng.random() < 0.2 else S_(1)])
+                    terms.append((coef, V(others[i % len(others)])))
+                pos = rng.randrange(len(terms))
+                terms[0], terms[pos] = terms[pos], terms[0]
+                expr_r = comb_recipe(terms)
+                o = vx.Objs(nv, ns)
+                shown = f"{vx.show_recipe(expr_r)} for {'abcdefgh'[unknown]}" + ("" if reduce else " (reduce_factor=False)")
+                base = {"kind": "solve_for_vector", "case": shown, "recipe_lhs": expr_r, "recipe_rhs": None, "nv": nv, "ns": ns,
+                    "unknown": unknown, "reduce": reduce, "complex": True}
+                try:
+                    eq = solve_for_vector(vx.build(expr_r, o), o.vecs[unknown], reduce_factor=reduce)
+                except Exception as e:  # pylint: disable=broad-except
+                    cap.violation(f"C16:sfv:refused:{shown}", f"solve_for_vector refuses {shown}: {type(e).__name__}: {e}"[:300],
+                        {**base, "observed": f"{type(e).__name__}: {e}"[:300], "expected": "an equation"}, True)
+                    continue
+                base["observed"] = str(eq)
+                c = vx.OutCtx(o)
+                # numeric check with complex values first
+                bad = None
+                samples = []
+                for _ in range(6):
+                    env = vtree.rand_env(rng, nv, ns, small=False)
+                    lv, rv = cev_sympy(eq.lhs, c, env, "v"), cev_sympy(eq.rhs, c, env, "v")
+                    samples.append((env, tuple(x - y for x, y in zip(lv, rv)), cev_recipe(expr_r, env)))
+                Kc = None
+                for cand in (K_addends if reduce else [K]):
+                    if all((cclose(tuple(cev_recipe(cand, env) * x for x in d), ev) if reduce else cclose(tuple(-x for x in d), ev))
+                            for env, d, ev in samples):
+                        Kc = cand
+                        break
+                if Kc is None:
+                    env, d, ev = samples[0]
+                    bad = (env, d, ev, [cev_recipe(cand, env) for cand in K_addends])
+                if bad:
+                    env, d, ev, kv = bad
+                    cap.violation(f"C16:sfv:{shown}", f"solve_for_vector({shown}) returns {eq}: " + ("k*(lhs - rhs) is not the expression "
+                        f"for any coefficient k in {cshow(tuple(kv))} of the unknown" if reduce else "rhs - lhs is not the expression"),
+                        {**base, "env": env.to_json(), "lhs_minus_rhs": cshow(d), "expr": cshow(ev), "coefficient": cshow(tuple(kv)),
+                         "expected": "lhs - rhs = expr / k" if reduce else "rhs - lhs = expr"}, True)
+                    continue
+                try:
+                    L, Rr = cpair_sympy(eq.lhs, c, "v"), cpair_sympy(eq.rhs, c, "v")
+                    E, Kp = cpair_recipe(expr_r), cpair_recipe(Kc)
+                except vx.Unsupported as e:
+                    ctx.violation(f"C16:sfv:unmodelled:{shown}", f"result of solve_for_vector outside the complex serialiser's vocabulary: {e}",
+                        {**base, "kind": "broken-tie", "theorem_or_tie": "c16.cpair_sympy"}, False)
+                    continue
+                Dr, Di = f"(vsub {L[0]} {Rr[0]})", f"(vsub {L[1]} {Rr[1]})"
+                if reduce:
+                    re_l, im_l = cvscale(Kp, (Dr, Di))
+                    stmt_body = f"{re_l} = {E[0]} /\\ {im_l} = {E[1]}"
+                else:
+                    stmt_body = f"(vsub {Rr[0]} {L[0]}) = {E[0]} /\\ (vsub {Rr[1]} {L[1]}) = {E[1]}"
+                bind = vx.binder({"v": set(range(nv)), "s": set(range(ns)), "f": set(), "par": False})
+                if reduce:
+                    stmt_body = f"({Kp[0]}) * ({Kp[0]}) + ({Kp[1]}) * ({Kp[1]}) <> 0 -> " + stmt_body
+                facts = ["assert (Hq : sqrt 2 * sqrt 2 = 2) by (apply sqrt_sqrt; lra).",
+                    "assert (Hq0 : sqrt 2 <> 0) by (intro Eq0; rewrite Eq0 in Hq; lra).",
+                    "pose proof (sin2_cos2 s2) as Hcs. unfold Rsqr in Hcs.",
+                    "set (q2 := sqrt 2) in *. set (c2 := cos s2) in *. set (z2 := sin s2) in *. clearbody q2 c2 z2."]
+                proof = ("intros. " + " ".join(facts) + " " + destruct_vectors(nv) +
+                    " timeout 120 (split; apply v3_eq; v3_goal; c_finish).")
+                name = f"sfc_{n}"
+                lemmas.append(coqrun.Lemma(name, f"forall {bind}, {stmt_body}", proof, shown))
+                info[name] = base
+    (ctx.build / "sfc_lemmas.txt").write_text("\n".join(f"Lemma {l.name} : {l.statement}.\nProof.\n{l.proof}\nQed.\n" for l in lemmas))
+    res = coqrun.prove_lemmas(ctx, "sfc", PREAMBLE + C_PREAMBLE_EXTRA, lemmas, per_file=8, timeout=900) if lemmas else {}
+    ok = sum(v == "ok" for v in res.values())
+    ctx.obligations(len(lemmas), ok)
+    for name, st in res.items():
+        if st != "ok":
+            b = info[name]
+            ctx.violation(f"C16:sfv-proof:{b['case']}", f"could not prove the rearrangement identity (complex coefficients) for {b['case']} -> "
+                f"{b['observed']}", {**b, "kind": "broken-proof", "theorem_or_tie": f"generated lemma {name}", "coq_error": st[-400:]}, False)
+    ctx.evaluated(n, n)
+    ctx.coverage["solve_for_vector_complex"] = {"cases": n, "lemmas": len(lemmas), "proved": ok,
+        "coefficients": "I, -I, exp(I*phi), (1+I)/sqrt(2), 2I, k*I, 1+I, -exp(I*phi)"}
+    if lemmas:
+        ctx.sample({"stream": "solve_for_vector (complex coefficients)", "case": info[lemmas[0].name]["case"],
+            "returned": info[lemmas[0].name]["observed"], "lemma": lemmas[0].statement[:300]})
+
+
+# ---------------------------------------------------------------------------------------------
 # generic linear combinations
 # ---------------------------------------------------------------------------------------------
 
 def gen_coef(rng, nv, ns, kind=None):
-    kind = kind or rng.choice(["sym", "sym", "int", "minus1", "sum", "prod", "intsym", "dot", "inv"])
+    kind = kind or rng.choice(["sym", "sym", "int", "minus1", "sum", "prod", "intsym", "dot", "inv", "sqrtprod", "logprod"])
     if kind == "sym":
         return S_(rng.randrange(ns))
     if kind == "int":
@@ -63,6 +446,12 @@ def gen_coef(rng, nv, ns, kind=None):
         return ("dot", V(a), V(b))
     if kind == "inv":
         return ("sdiv", ("int", 1), S_(rng.randrange(ns)))
+    if kind == "sqrtprod":
+        a, b = sorted(rng.sample(range(ns), 2))           # SymPy's argument order, so that both sides name the same atom
+        return ("ssqrt", ("smul", S_(a), S_(b)))          # no positivity assumption: sqrt(x*y) is not sqrt(x)*sqrt(y)
+    if kind == "logprod":
+        a, b = sorted(rng.sample(range(ns), 2))
+        return ("slog", ("smul", S_(a), S_(b)))
     raise ValueError(kind)
 
 
@@ -208,13 +597,25 @@ def solve_vector_cases(ctx):
         atoms = {"v": set(range(nv)), "s": set(range(ns)), "f": set(), "par": False}
         bind = vx.binder(atoms)
 
-        def value(env, which):
-            return vx.eval_sympy(which, c, env, "v")
+        tags = vx.recipe_tags(expr_r)
+        cx = "ssqrt" in tags or "slog" in tags          # radicals / logarithms of products: evaluate over C, also at negative values
+        if cx:
+            ev_out = lambda env, which: cev_sympy(which, c, env, "v")
+            ev_rec = lambda r_, env: cev_recipe(r_, env)
+            close_ = cclose
+            show_ = cshow
+        else:
+            ev_out = lambda env, which: vx.eval_sympy(which, c, env, "v")
+            ev_rec = vx.eval_recipe
+            close_ = vx.close
+            show_ = vx.show_value
+        vsub_ = lambda a_, b_: tuple(x - y for x, y in zip(a_, b_))
+        vscale_ = lambda k_, a_: tuple(k_ * x for x in a_)
         ok_env = []
         for env in envs:
             try:
-                ok_env.append((env, value(env, eq.lhs), value(env, eq.rhs), vx.eval_recipe(expr_r, env)))
-            except ZeroDivisionError:
+                ok_env.append((env, ev_out(env, eq.lhs), ev_out(env, eq.rhs), ev_rec(expr_r, env)))
+            except (ZeroDivisionError, ValueError):
                 continue
         if case["reduce"]:
             chosen = None
@@ -223,14 +624,14 @@ def solve_vector_cases(ctx):
                 used = 0
                 for env, lv, rv, ev in ok_env:
                     try:
-                        kv = vx.eval_recipe(K, env)
+                        kv = ev_rec(K, env)
                         if kv == 0:
                             continue
                         used += 1
-                        if not vx.close(vx.v_add(lv, vx.v_scale(Fraction(-1), rv)), vx.v_scale(1 / kv, ev)):
+                        if not close_(vsub_(lv, rv), vscale_(1 / kv, ev)):
                             good = False
                             break
-                    except ZeroDivisionError:
+                    except (ZeroDivisionError, ValueError):
                         continue
                 if good and used:
                     chosen = K
@@ -239,9 +640,9 @@ def solve_vector_cases(ctx):
                 env, lv, rv, ev = ok_env[0] if ok_env else (None, None, None, None)
                 cap.violation(f"C16:sfv:{shown}", f"solve_for_vector({shown}) returns {eq}: its sides do not differ by the expression divided "
                     f"by a coefficient of the unknown", {**base, "env": env.to_json() if env else None,
-                    "lhs_minus_rhs": vx.show_value(vx.v_add(lv, vx.v_scale(Fraction(-1), rv))) if env else None,
-                    "expr": vx.show_value(ev) if env else None,
-                    "coefficients": [str(vx.eval_recipe(K, env)) for K in subsets] if env else None,
+                    "lhs_minus_rhs": show_(vsub_(lv, rv)) if env else None,
+                    "expr": show_(ev) if env else None, "complex": cx,
+                    "coefficients": [str(show_(ev_rec(K, env))) for K in subsets] if env else None,
                     "coefficient_recipes": subsets,
                     "expected": "lhs - rhs = expr / k for a coefficient k of the unknown"}, True)
                 continue
@@ -253,14 +654,14 @@ def solve_vector_cases(ctx):
         else:
             bad = None
             for env, lv, rv, ev in ok_env:
-                if not vx.close(vx.v_add(rv, vx.v_scale(Fraction(-1), lv)), ev):
+                if not close_(vsub_(rv, lv), ev):
                     bad = (env, lv, rv, ev)
                     break
             if bad:
                 env, lv, rv, ev = bad
                 cap.violation(f"C16:sfv:{shown}", f"solve_for_vector({shown}) returns {eq}: rhs - lhs is not the expression",
-                    {**base, "env": env.to_json(), "rhs_minus_lhs": vx.show_value(vx.v_add(rv, vx.v_scale(Fraction(-1), lv))),
-                     "expr": vx.show_value(ev), "expected": "rhs - lhs = expr"}, True)
+                    {**base, "env": env.to_json(), "rhs_minus_lhs": show_(vsub_(rv, lv)), "complex": cx,
+                     "expr": show_(ev), "expected": "rhs - lhs = expr"}, True)
                 continue
             prod = " * ".join([f"({vx.coq_of_recipe(d)})" for d in dens]) or "1"
             stmt = f"forall {bind}, {hyps}vsub {rhs_c} {lhs_c} = {vx.coq_of_recipe(expr_r)}"
@@ -608,6 +1009,13 @@ def apply_cases(ctx):
     vec_fs = [("dot with c", lambda s: VectorDot(s, c)), ("cross with c", lambda s: VectorCross(s, c)), ("norm", VectorNorm),
         ("plus a", lambda s: s + a), ("times k", lambda s: s * k), ("identity", lambda s: s)]
     sc_fs = [("plus k", lambda s: s + k), ("square", lambda s: s**2), ("times m", lambda s: s * m), ("identity", lambda s: s)]
+    from symplyphysics.core.experimental.vectors import VectorMixedProduct  # pylint: disable=import-outside-toplevel
+    # bare (non-Eq) inputs whose top node is each node class: they all mean `expr = 0`
+    vec_eqs += [VectorCross(a, b), VectorCross(a, b, evaluate=False), a, k * a, sympy.Mul(k, VectorCross(a, b), evaluate=False),
+        sympy.Add(a, b, evaluate=False), sympy.S.Zero]
+    sc_eqs += [VectorDot(a, b), VectorDot(a, b, evaluate=False), VectorDot(a + b, c), VectorNorm(a), VectorNorm(a + b, evaluate=False),
+        VectorMixedProduct(a, b, c), VectorMixedProduct(a, b, c, evaluate=False), k, sympy.Integer(3), sympy.Rational(1, 2), k * m,
+        k * VectorDot(a, b), VectorDot(a, b) + m, VectorDot(a, b)**2]
     n = 0
     for eqs, fs in ((vec_eqs, vec_fs), (sc_eqs, sc_fs)):
         for e in eqs:
@@ -641,6 +1049,7 @@ def run(ctx):
     ctx.assume("scalars are real, vectors real 3-vectors; the coefficient of the chosen term is non-zero (hypothesis of each lemma)",
         "Model/Solve.v identifies vectors by an index (vector_equals is modelled as equality of the irreducible vector terms)")
     solve_vector_cases(ctx)
+    solve_vector_complex_cases(ctx)
     ctx.log("solve_for_vector done")
     refusal_cases(ctx)
     solve_scalar_cases(ctx)
